@@ -17,7 +17,7 @@ from .canon import canon, digest
 
 VERIF = os.path.dirname(os.path.dirname(os.path.abspath(__file__)))
 KNOWN_FILE = os.path.join(VERIF, "known_findings.json")
-REPLAY_DIR = os.path.join(VERIF, "replays")
+REPLAY_DIR = os.environ.get("DSIM_REPLAY_DIR") or os.path.join(VERIF, "replays")
 RUN_TIMEOUT_S = 60
 
 
